@@ -127,6 +127,30 @@ def run(tier, mode):
         n_or += 1
         if isinstance(o, H.Exn) or o['lots'] != lots or o['acres'] != acres:
             fail('direct', {'text': text, 'config': cfg}, o if isinstance(o, H.Exn) else [o['lots'], o['acres']], [lots, acres])
+    # settings given to parse(): an explicit keyword (False included) beats the configured value, and a commit=False parse with other
+    # settings leaves the tract's own duplicate warnings exactly as they were (present iff ITS lots/aliquots repeat)
+    for text in ['N/2 of Lot 1, S/2 of Lot 1', 'N/2 of Lot 1, Lot 3, E/2SW/4 of Lots 7 - 8', 'N/2NE/4NE/4, S/2NE/4NE/4', 'Lot 1, NE/4 of Lot 2; W/2']:
+        for conf in [None, 'suppress_lot_divs', 'suppress_lot_divs.False']:
+            for kw in [None, True, False]:
+                t = H.call(pytrs.Tract, text, config=conf)
+                if isinstance(t, H.Exn):
+                    continue
+                got = H.call(lambda: t.parse(commit=True, **({} if kw is None else {'suppress_lot_divs': kw})))
+                eff = kw if kw is not None else (conf == 'suppress_lot_divs')
+                ref = observe(pytrs, text, 'suppress_lot_divs' if eff else None)
+                n_or += 1
+                if isinstance(got, H.Exn) or isinstance(ref, H.Exn) or t.lots != ref['lots'] or t.qqs != ref['qqs']:
+                    fail('keyword_suppress_lot_divs', {'text': text, 'config': conf, 'keyword': kw}, got if isinstance(got, H.Exn) else [t.lots, t.qqs], [ref['lots'], ref['qqs']] if not isinstance(ref, H.Exn) else ref)
+        t = H.call(pytrs.Tract, text, parse_qq=True)
+        if not isinstance(t, H.Exn):
+            before = (list(t.w_flags), list(t.lots), list(t.qqs))
+            for kws in [{'suppress_lot_divs': True}, {'qq_depth': 2}, {'qq_depth_min': 1}, {'clean_qq': True}]:
+                H.call(lambda: t.parse(commit=False, **kws))
+                n_or += 1
+                after = (list(t.w_flags), list(t.lots), list(t.qqs))
+                if after != before:
+                    fail('dup_flag_after_uncommitted_parse', {'text': text, 'keywords': kws}, after[0], before[0])
+                    break
     # the two known findings are probed explicitly so that they are reported on every run
     for text, kid, want in [('NE/4\nLot 1', 'C06-newline', (['L1'], 4)), ('ALL, Lot 1', 'C06-all-context', (['L1'], 16))]:
         o = observe(pytrs, text, None)
